@@ -223,6 +223,12 @@ func (pv *Prover) lenForm(kind string, arg ssa.Value) Lin {
 	return linAtom(Atom{kind, arg})
 }
 
+// LenForm is the linear form of len(x).
+func (pv *Prover) LenForm(x ssa.Value) Lin { return pv.baseLen(x) }
+
+// CapForm is the linear form of cap(x).
+func (pv *Prover) CapForm(x ssa.Value) Lin { return pv.lenForm("cap", x) }
+
 // baseLen is len(x) where x may be a pointer to an array.
 func (pv *Prover) baseLen(x ssa.Value) Lin {
 	if p, ok := x.Type().Underlying().(*types.Pointer); ok {
@@ -786,4 +792,14 @@ func dedupe(cs []Lin) []Lin {
 		}
 	}
 	return out
+}
+
+// ParityAt returns the parity of form f at entry of block b when the facts
+// (guards and phi invariants) determine it.
+func (pv *Prover) ParityAt(b *ssa.BasicBlock, f Lin) (int64, bool) {
+	fs := pv.facts(b)
+	for a := range f.T {
+		pv.intrinsic(fs, a)
+	}
+	return pv.parityOf(fs, f)
 }
